@@ -3,7 +3,11 @@
 Proof part (kernvc): every function of the three .pyx files against its sidecar contract
 (contracts/kernels.py): defining sums, memory safety, thread independence, pragma audit.
 Bounded stand-in (never counted as proved): interpretation of the lowered source vs the compiled
-artefact; thorough tier: -fopenmp rebuild, bitwise comparison across thread counts.
+artefact; installed compiled kernel vs a reference evaluation of the defining sums (gsvc/kern_ref.py,
+independent of the lowering) for num_threads in {None,1,2,3,4,8,16} incl. bit-identity across them;
+thorough tier: -fopenmp rebuild, bitwise comparison across thread counts.
+A function / file whose source is outside the lowering subset is reported obligation by obligation as
+undecided (-> VIOLATION ... no-failing-input-found for everything frozen in the ledger), never skipped.
 """
 LEVEL = "proof"
 MANIFEST = {
@@ -28,7 +32,11 @@ MANIFEST = {
                   "Cython/gcc/OpenMP trusted): they are covered by bounded obligations (status bounded_ok, "
                   "sizes 0..40 quick / ..128 thorough; thorough rebuilds the generated C with -fopenmp and "
                   "compares bitwise for num_threads in {None,1,2,3,4,8,16}); thread independence itself is "
-                  "proved at source level from ownership + definite assignment + implicit barriers.",
+                  "proved at source level from ownership + definite assignment + implicit barriers. "
+                  "Independently of the lowering, artefact.defining_sums (bounded, sizes 0..24 quick / ..64 "
+                  "thorough) compares the installed compiled kernels with a plain numpy evaluation of the "
+                  "defining sums for num_threads in {None,1,2,3,4,8,16} and requires bit-identical results "
+                  "across those values.",
     "technique": "contract-based deductive verification: mechanical .pyx->ast lowering, symbolic forward "
                  "execution with loop invariants from sidecar contracts, recursive spec sums with ground "
                  "unfolding and E-matching axioms, modular calls by contract, SMT (z3/cvc5); dataflow for "
@@ -53,7 +61,8 @@ def run(rep, tier, seed, only=None):
     _trust(rep)
     for o in rep.obls[:400]:
         if o.id.endswith("summate/loop.j.preserve") or o.id.endswith("unstructured/loop.m.preserve") \
-                or o.id.endswith("par.i.ownership.summed_modes") or o.id.endswith("summate/artefact.differential"):
+                or o.id.endswith("par.i.ownership.summed_modes") or o.id.endswith("summate/artefact.differential") \
+                or o.id.endswith("unstructured/artefact.defining_sums"):
             rep.sample(o.to_json())
     rep.sample({"contract": "field/summator.pyx:summate", "requires": K.CONTRACTS["field/summator.pyx:summate"]["requires"],
                 "ensures": K.CONTRACTS["field/summator.pyx:summate"]["ensures"],
@@ -61,7 +70,9 @@ def run(rep, tier, seed, only=None):
                 "spec_S": K.SPEC["S"]["term"]})
     rep.explanation = ("Each obligation is one named proof obligation generated from the current .pyx text; "
                        "'discharged' counts only unsat answers (or established dataflow/audit facts); the "
-                       "artefact.* obligations are bounded differential checks and are reported under "
+                       "artefact.* obligations are bounded differential checks (artefact.differential: compiled "
+                       "vs interpretation of the lowered source; artefact.defining_sums: compiled vs reference "
+                       "evaluation of the defining sums, all num_threads values) and are reported under "
                        "bounded_obligations.")
 
 
@@ -92,10 +103,20 @@ def replay(path):
     from gsvc import kern_run
     data = json.load(open(path))
     rp = data.get("replay") or {}
+    if rp.get("kind") == "defining_sums":
+        from gsvc import kern_diff
+        return kern_diff.replay_defining_sums(rp)
     if rp.get("kind") == "differential":
         from gsvc import kern_diff, kern_native, kern_interp, lower_pyx
         import numpy as np
-        low = lower_pyx.lower_file(rp["relpath"])
+        try:
+            low = lower_pyx.lower_file(rp["relpath"])
+        except lower_pyx.LoweringError as e:
+            low = None
+        if low is None or rp["function"] in low.tainted:
+            print("replay: the current source of %s:%s is outside the supported subset; no interpretation "
+                  "to compare with" % (rp["relpath"], rp["function"]))
+            return 2
         fi = low.funcs[rp["function"]]
         inp = kern_native.inputs_from_json(fi, rp["inputs"])
         mod = kern_native.load_compiled(low)
